@@ -39,7 +39,16 @@ func runC03(r *lib.Run) {
 			} else {
 				gb := lib.NewGen(cfg, r.Seed, i, c03Opts(i))
 				b = gb.Tree()
-				edits = gb.Mutate(b, 1+i%6)
+				if w := ""; i%6 == 2 {
+					// the only difference is the order of one ordered-by-user list
+					if w = gb.PermuteOrdered(b); w != "" {
+						edits = []string{"permute-only " + w}
+						r.Hit("pair:pure-reorder")
+					}
+				}
+				if edits == nil {
+					edits = gb.Mutate(b, 1+i%6)
+				}
 				r.Hit("pair:mutated")
 			}
 			c03Pair(r, cfg, i, a, b, edits, func() ygot.GoStruct { return lib.NewGen(cfg, r.Seed, i, c03Opts(i)).Tree() })
